@@ -24,6 +24,9 @@ FLOORS = {"quick": {"agenda_pops": 20000, "mixed_class_instants": 500, "same_cla
                     "spec_compared": 1000, "stops_reached": 100, "negative_delay_probes": 10, "long_history_cases": 4},
           "thorough": {"agenda_pops": 400000, "mixed_class_instants": 10000, "same_class_triples": 10000,
                        "spec_compared": 20000, "stops_reached": 2000, "negative_delay_probes": 10, "long_history_cases": 48}}
+# floors for the situations added with the later rounds of seeded changes (evidence that they were really exercised)
+FLOORS["quick"].update({'timeouts_by_class_constructor': 4000, 'chained_triggers_fired': 80, 'interrupts_issued_from_plain_callbacks': 300})
+FLOORS["thorough"].update({'timeouts_by_class_constructor': 20000, 'chained_triggers_fired': 400, 'interrupts_issued_from_plain_callbacks': 1500})
 
 PROFILE = {"weights": {"timeout": 6, "zero": 2, "wait": 2, "succeed": 2, "fail": 0.5, "spawn": 2, "join": 2,
                        "interrupt": 3, "cb": 0.5, "cond": 0, "cbint": 0.3, "chain": 0.2},
